@@ -32,7 +32,7 @@ func init() {
 			"go/format is the reference for the edited text; generated layouts or edited texts on which gofmt is not idempotent are inconclusive",
 			"'uniform separators' is decided from the text and gofmt only (edge blank lines must survive gofmt)",
 		},
-		Required: map[string]int{"list_kinds": 9, "edit_kinds": 7, "separators": 2},
+		Required: map[string]int{"list_kinds": 10, "edit_kinds": 7, "separators": 2},
 	})
 }
 
@@ -253,16 +253,42 @@ var c02Kinds = []c02Kind{
 			if inner {
 				return []string{"case " + t + ":", "\tg( /*I " + t + "*/ " + t + ")"}
 			}
-			switch v % 3 {
+			switch v % 5 {
 			case 1:
 				return []string{"case " + t + ", x" + t + ":", "\tg(" + t + ")", "\th(" + t + ")"}
 			case 2:
 				return []string{"case " + t + " > 1:", "\treturn " + t}
+			case 3:
+				// a comment on its own line at the end of the clause body (inner comment of the chunk)
+				return []string{"case " + t + ":", "\tg(" + t + ")", "\t// H " + t}
+			case 4:
+				return []string{"case " + t + ":", "\t// only " + t}
 			}
 			return []string{"case " + t + ":", "\tg(" + t + ")"}
 		},
 		slice: func(f *dst.File, l string) reflect.Value {
 			return sv(&c02FuncBody(f, "f"+l).List[0].(*dst.SwitchStmt).Body.List)
+		}},
+	{name: "case-clauses(select)", head: "package p\n\n", blank: true,
+		open:  func(l string) string { return "func f" + l + "() {\n\tselect {" },
+		close: func(l string) string { return "\t}\n}" },
+		join:  "\n",
+		elem: func(t string, inner bool, v int) []string {
+			if inner {
+				return []string{"case <-" + t + ":", "\tg( /*I " + t + "*/ " + t + ")"}
+			}
+			switch v % 4 {
+			case 1:
+				return []string{"case x" + t + " := <-" + t + ":", "\tg(x" + t + ")", "\t// H " + t}
+			case 2:
+				return []string{"case " + t + " <- 1:", "\t// only " + t}
+			case 3:
+				return []string{"case <-" + t + ":", "\tg(" + t + ")", "\th(" + t + ")"}
+			}
+			return []string{"case <-" + t + ":", "\tg(" + t + ")"}
+		},
+		slice: func(f *dst.File, l string) reflect.Value {
+			return sv(&c02FuncBody(f, "f"+l).List[0].(*dst.SelectStmt).Body.List)
 		}},
 	{name: "import-specs", head: "package p\n\n", noDup: true,
 		open:  func(l string) string { return "import (" },
